@@ -291,6 +291,19 @@ theorem applyFresh_spec (w : Worker) (p : Probe) (now : Nat)
       simp only [Bool.not_false, if_true]
       exact ⟨hrun, hsta, fun hi => hidler hi hch, hupd⟩
 
+theorem applyFresh_spec_starting (w : Worker) (p : Probe) (now : Nat) (v : Uuid) :
+    v ∈ (w.applyFresh p now).1.starting ↔ v ∈ w.starting ∧ (v ∈ p.uuids → v ∈ w.running) := by
+  unfold applyFresh
+  dsimp only
+  generalize hw2 : (if (!p.uuids.isEmpty || !w.running.isEmpty) = true
+      then { w with busy := now } else w) = w2
+  have h2 : w2.running = w.running ∧ w2.starting = w.starting := by
+    subst hw2; split <;> exact ⟨rfl, rfl⟩
+  obtain ⟨_, u2, _⟩ := updateRunning_spec w2 p.uuids now
+  rw [← h2.1, ← h2.2, ← u2 v]
+  repeat' split
+  all_goals rfl
+
 theorem probeFresh_stamp {w : Worker} {p : Probe} {now : Nat} (hlt : p.stamp < now)
     (h : probeFresh w p now = true) : p.stamp = w.updated ∧ p.ok = true := by
   unfold probeFresh at h
